@@ -19,16 +19,33 @@ pub(crate) struct Connection {
 
     // Time that the connection was established
     time_established: std::time::Instant,
+
+    #[cfg(bmwill_anemo_verif)]
+    verif_gid: u64,
 }
 
 impl Connection {
     pub fn new(inner: quinn::Connection, origin: ConnectionOrigin) -> Result<Self> {
         let peer_id = Self::try_peer_id(&inner)?;
+        #[cfg(bmwill_anemo_verif)]
+        let verif_gid = crate::verif::global_connection_id(&inner);
+        #[cfg(bmwill_anemo_verif)]
+        crate::verif::emit(
+            "conn.new",
+            crate::verif::json!({
+                "gid": verif_gid,
+                "sid": inner.stable_id(),
+                "origin": crate::verif::origin(origin),
+                "peer": crate::verif::pid(&peer_id),
+            }),
+        );
         Ok(Self {
             inner,
             peer_id,
             origin,
             time_established: std::time::Instant::now(),
+            #[cfg(bmwill_anemo_verif)]
+            verif_gid,
         })
     }
 
@@ -46,6 +63,11 @@ impl Connection {
         let peer_id = crate::crypto::peer_id_from_certificate(peer_cert)?;
 
         Ok(peer_id)
+    }
+
+    #[cfg(bmwill_anemo_verif)]
+    pub(crate) fn verif_gid(&self) -> u64 {
+        self.verif_gid
     }
 
     /// PeerId of the Remote Peer
